@@ -216,6 +216,8 @@ pub fn drive_hooked(args: &[String]) {
         run += 1;
         let tag = format!("p{run}");
         sink.emit(json!({"ev": "header", "run": tag, "name": name, "ng": ng, "rels": rels, "k": k}));
+        // at most 300 000 calls are kept per run (deep enumerations make hundreds of millions)
+        rust_dsymbols::verif::set_limit(300_000);
         rust_dsymbols::verif::record(true); let _ = rust_dsymbols::verif::take();
         let r = catch(|| coset_tables(ng, &words(&rels), k).count());
         rust_dsymbols::verif::record(false); let evs = rust_dsymbols::verif::take();
